@@ -294,6 +294,7 @@ func computeFacts(fn *ssa.Function) *Facts {
 						break
 					}
 				}
+				f.derivePhi(cur)
 				// several edges p->b with different literals: keep only the first; conservative (subset)
 				if first {
 					acc = cur
@@ -681,4 +682,61 @@ func MustPassFromEntry(fn *ssa.Function, to ssa.Instruction, through map[ssa.Ins
 		}
 	}
 	return true
+}
+
+// derivePhi: a boolean phi known to be pol, all of whose edges but one carry the constant !pol, took that one edge
+// (the value of `a && b && c` computed into a variable, then tested): the edge's value is pol and everything known at
+// the end of that predecessor holds.
+func (f *Facts) derivePhi(cur map[Lit]bool) {
+	for round := 0; round < 4; round++ {
+		var add []Lit
+		for l := range cur {
+			phi, ok := l.V.(*ssa.Phi)
+			if !ok || !isBoolType(phi.Type()) {
+				continue
+			}
+			feasible := -1
+			n := 0
+			for i, e := range phi.Edges {
+				if k, isK := boolConst(e); isK && k != l.Pol {
+					continue
+				}
+				feasible = i
+				n++
+			}
+			if n != 1 {
+				continue
+			}
+			pred := phi.Block().Preds[feasible]
+			pin, visited := f.in[pred]
+			if !visited {
+				continue
+			}
+			if _, isK := boolConst(phi.Edges[feasible]); !isK {
+				add = append(add, Lit{phi.Edges[feasible], l.Pol})
+			}
+			for pl := range pin {
+				add = append(add, pl)
+			}
+			for i, sblk := range pred.Succs {
+				if sblk == phi.Block() {
+					add = append(add, edgeLits(pred, i)...)
+					break
+				}
+			}
+		}
+		changed := false
+		for _, a := range add {
+			if !cur[a] {
+				cur[a] = true
+				changed = true
+				if u, ok := a.V.(*ssa.UnOp); ok && u.Op == token.NOT {
+					cur[Lit{u.X, !a.Pol}] = true
+				}
+			}
+		}
+		if !changed {
+			return
+		}
+	}
 }
